@@ -187,12 +187,13 @@ prop(
 prop(
     "C18",
     level="exploration",
-    technique="trace monitor with its own timeline of end-of-block spot prices; raw snapshot audit; price-feed reference model (W-PF)",
+    technique="trace monitor with its own timeline of end-of-block spot prices (bounds and exact reference TWAP); layout-agnostic raw snapshot audit; price-feed reference model (W-PF)",
     design_ref="DESIGN.md §4 C18",
     rule="evaluations = TWAP queries checked (vAMM: four interval classes after every reserve change / block advance; feed: GetTwapPrice/GetPrice/GetPreviousPrice over every submission history). vAMM TWAP must lie within [min,max] (+-1) of the prices in effect during the window per the monitor's own timeline; "
-         "raw reserve snapshots: no two with one block height, at most reserve-changing blocks + 1, latest == current reserves. Feed: TWAP within min/max of submissions overlapping the window, GetPrice == last submission, GetPreviousPrice{n} == the (rounds-n)-th submission and an error for n >= rounds. "
+         "R4 the value equals (one raw unit of slack per segment) the time-weighted average of the monitor's own one-price-per-block timeline (end-of-block spot, partial first segment, whole-history average when the history is shorter than the interval); "
+         "raw reserve snapshots (recognised by shape at any nesting depth under any key: scalar-only object with one integer that is a block height of the run and two or three unsigned decimal strings): no two with one block height, at most reserve-changing blocks + 1, every traded block has one and it holds that block's final reserves, latest == current reserves. Feed: TWAP within min/max of submissions overlapping the window, GetPrice == last submission, GetPreviousPrice{n} == the (rounds-n)-th submission and an error for n >= rounds. "
          "distinct = (interval class, #segments in window, same-block overwrite seen) and feed cases.",
-    essential=["twap-queries", "same-block-overwrites", "snapshot-audits"],
+    essential=["twap-queries", "same-block-overwrites", "snapshot-audits", "R4-twap-reference-comparisons-over-changing-prices"],
     text="TWAP bounds checked against an independent price timeline on histories with several trades per block and long gaps.",
     note="prices are integers scaled by D; one raw unit of slack for truncation",
 )
